@@ -5,7 +5,7 @@ import itertools
 from mc import env  # noqa: F401
 from mc import kernel
 from mc.canon import canon
-from mc.report import Violation
+from mc.report import Violation, Lookalike
 
 import desper
 
@@ -480,8 +480,24 @@ TYPE_LISTS = {
 SOURCES = list(itertools.product((0, 1), repeat=2))  # (entry?, method?)
 
 
+class SourceFailed(Lookalike):
+    """Raised by a construction source while it runs (an AttributeError,
+    KeyError, TypeError ... of its own): it is the caller's to see, not a
+    reason to fall back to another source."""
+
+
+def _failing(*args):
+    raise SourceFailed('construction source failed while running')
+
+
 def run_prototype(case):
+    fault = 'none'
+    if len(case) == 5:
+        fault = case[4]
+        case = case[:4]
     tl_name, src, prefix_kind, sub_kind = case
+    if fault != 'none':
+        return run_prototype_fault(tl_name, src, prefix_kind, fault)
     types = TYPE_LISTS[tl_name]
     uniq = []
     for t in types:
@@ -576,8 +592,74 @@ def run_prototype(case):
     return {'calls': calls, 'hits': hits, 'key': repr(case)}
 
 
+def run_prototype_fault(tl_name, src, prefix_kind, fault):
+    """The source that has to build the first listed type raises while it
+    runs: iterating raises that exception - no component of that type is
+    built by a lower-priority source instead."""
+    case = (tl_name, src, prefix_kind, 'none', fault)
+    types = TYPE_LISTS[tl_name]
+    uniq = []
+    for t in types:
+        if t not in uniq:
+            uniq.append(t)
+    src = dict(zip(uniq, src))
+    prefix = {'default': 'init_', 'custom': 'make_'}[prefix_kind]
+    ns = {'component_types': types}
+    if prefix_kind == 'custom':
+        ns['init_prefix'] = prefix
+    entries = {}
+    victim = uniq[0]
+    for t in uniq:
+        has_entry, has_method = src[t]
+        winner = 'entry' if has_entry else ('method' if has_method else None)
+        if has_entry:
+            entries[t] = (_failing if (t is victim and winner == 'entry')
+                          else (lambda tt, _t=t: tt('entry')))
+        if has_method:
+            ns[prefix + t.__name__] = (
+                (lambda self, tt: _failing()) if (t is victim
+                                                  and winner == 'method')
+                else (lambda self, tt: tt('method')))
+    if entries:
+        ns['init_methods'] = entries
+    has_entry, has_method = src[victim]
+    if not has_entry and has_method:
+        # (listed classes of one name share the prefixed method)
+        ns[prefix + victim.__name__] = lambda self, tt: _failing()
+    cls = type('Proto', (desper.Prototype,), ns)
+    hits = {'winning_source_raises': 1,
+            ('failing_entry' if has_entry else 'failing_method'): 1}
+    try:
+        got = list(cls())
+    except SourceFailed:
+        return {'calls': 1, 'hits': hits, 'key': repr(case)}
+    except Exception as exc:
+        raise Violation('construction_source_priority',
+                        f'{case}: the source building {victim.__name__} '
+                        f'raised SourceFailed, iterating raised {exc!r}',
+                        expected='exception', got=type(exc).__name__)
+    built = [getattr(o, 'built_by', None) for o in got
+             if type(o) is victim]
+    raise Violation('construction_source_priority',
+                    f'{case}: the '
+                    f'{"init_methods entry" if has_entry else "prefixed method"}'
+                    f' of {victim.__name__} raised while running, but '
+                    f'iterating completed and {victim.__name__} was built '
+                    f'by {built}', expected='exception', got=str(built[:1]))
+
+
 def prototype_cases():
     out = []
+    for tl_name, types in TYPE_LISTS.items():
+        n = len(set(types))
+        if not n:
+            continue
+        for src in itertools.product(SOURCES, repeat=n):
+            if src[0] == (0, 0):
+                continue        # the first type has no source that can fail
+            for prefix_kind in ('default', 'custom'):
+                out.append((tl_name, src, prefix_kind, 'none',
+                            'winner_raises'))
     for tl_name, types in TYPE_LISTS.items():
         n = len(set(types))
         for src in itertools.product(SOURCES, repeat=n):
@@ -652,6 +734,8 @@ def run(tier, rep):
                      moved_give_first=1)
     kernel.enumerate_cases(run_move, move_cases(), rep, 'controller-moves',
                            chunk=4)
+    rep.require_hits(winning_source_raises=1, failing_entry=1,
+                     failing_method=1)
     kernel.enumerate_cases(run_prototype, prototype_cases(), rep,
                            'prototype-shapes', chunk=100)
     dts = (0, 1, 0.5, -2, 10 ** 9, 1e-9)
